@@ -984,3 +984,244 @@ Example c35_nonvacuous_breaker :
   map o_res (run_ops (mkcfg false false) s [mkreq (OLoad 1%N false 0 0) 1 false; mkreq (OLoad 1%N true 0 0) 1 false])
   = [RErr ETrans; RBreaker].
 Proof. vm_compute. reflexivity. Qed.
+
+(* ---------- liveness: transient faults within the budget ---------- *)
+
+Section Live.
+  Variable S : Type.
+  Variable att : S -> S * aout.
+  Variable good : S -> Prop.
+  Variable rank : S -> nat.
+  Hypothesis H0 : forall s, good s -> rank s = 0 -> snd (att s) = AOk.
+  Hypothesis HS : forall s k, good s -> rank s = Datatypes.S k ->
+    snd (att s) = AErr ETrans /\ good (fst (att s)) /\ rank (fst (att s)) = k.
+
+  Lemma retry_live : forall k b pa f s, good s -> rank s = k -> k <= b -> 1 <= pa ->
+    exists s', retry_loop S att b pa f s = (s', ROk, f + k).
+  Proof.
+    induction k as [|k IH]; intros b pa f s Hg Hr Hb Hpa.
+    - pose proof (H0 s Hg Hr) as Ha. exists (fst (att s)).
+      destruct b; cbn [retry_loop]; destruct (att s) as [s' a]; cbn [snd fst] in *; subst a;
+        rewrite Nat.add_0_r; reflexivity.
+    - destruct (HS s k Hg Hr) as (Ha & Hg' & Hr').
+      destruct b as [|b]; [lia|].
+      rewrite (transient_continues S att b pa f s Ha Hpa).
+      destruct (IH b pa (Datatypes.S f) (fst (att s)) Hg' Hr' ltac:(lia) Hpa) as [s' Hs'].
+      exists s'. rewrite Hs'. f_equal. lia.
+  Qed.
+End Live.
+
+Definition trans_fault (f : fault) : bool :=
+  match f with FBefore ETrans | FPartial _ ETrans | FAfter ETrans => true | _ => false end.
+
+(* number of leading transient faults of a script that is followed by correct behaviour *)
+Fixpoint lead (sc : list fault) : option nat :=
+  match sc with
+  | [] => Some 0
+  | FNone :: _ => Some 0
+  | f :: r => if trans_fault f then option_map Datatypes.S (lead r) else None
+  end.
+
+(* the same for Save: on a backend without atomic replace each failed attempt also consumes the
+   directive answered to its cleanup Remove, whatever it is *)
+Fixpoint lead_save (atomic : bool) (sc : list fault) : option nat :=
+  match sc with
+  | [] => Some 0
+  | FNone :: _ => Some 0
+  | f :: r =>
+      if trans_fault f then
+        if atomic then option_map Datatypes.S (lead_save atomic r)
+        else match r with
+             | [] => Some 1
+             | _ :: r' => option_map Datatypes.S (lead_save atomic r')
+             end
+      else None
+  end.
+
+Definition rank_of (o : option nat) : nat := match o with Some k => k | None => 0 end.
+
+Lemma trans_fault_cases f : trans_fault f = true ->
+  f = FBefore ETrans \/ (exists k, f = FPartial k ETrans) \/ f = FAfter ETrans.
+Proof.
+  destruct f as [|e|k e|e]; try discriminate; destruct e; try discriminate; intros _; eauto.
+Qed.
+
+(* Load *)
+Definition wl_script (wl : WL) : list fault := s_script (fst (fst wl)).
+
+Lemma att_load_live n len off d (wl : WL) :
+  sget n (wstore (fst wl)) = Some d -> lead (wl_script wl) <> None ->
+  (rank_of (lead (wl_script wl)) = 0 -> snd (att_load n len off wl) = AOk) /\
+  (forall k, rank_of (lead (wl_script wl)) = Datatypes.S k ->
+     snd (att_load n len off wl) = AErr ETrans /\
+     sget n (wstore (fst (fst (att_load n len off wl)))) = Some d /\
+     lead (wl_script (fst (att_load n len off wl))) <> None /\
+     rank_of (lead (wl_script (fst (att_load n len off wl)))) = k).
+Proof.
+  destruct wl as [[s tr] last]. unfold wl_script, wstore, att_load. cbn [fst snd]. intros Hd Hl.
+  destruct (s_script s) as [|f sc] eqn:Es; cbn [pop].
+  - rewrite Hd. cbn [fst snd lead rank_of]. split; [reflexivity | intros k Hk; discriminate].
+  - destruct f as [|e|k0 e|e]; cbn [lead] in *.
+    + rewrite Hd. cbn [fst snd rank_of]. split; [reflexivity | intros k Hk; discriminate].
+    + destruct e; cbn [trans_fault] in *; try (exfalso; apply Hl; reflexivity).
+      destruct (lead sc) as [m|] eqn:El; [|exfalso; apply Hl; reflexivity].
+      cbn [option_map rank_of fst snd with_store s_script s_store]. split; [discriminate|].
+      intros k Hk. inversion Hk; subst. rewrite El. repeat split; auto. discriminate.
+    + destruct e; cbn [trans_fault] in *; try (exfalso; apply Hl; reflexivity).
+      destruct (lead sc) as [m|] eqn:El; [|exfalso; apply Hl; reflexivity].
+      rewrite Hd. cbn [option_map rank_of fst snd with_store s_script s_store]. split; [discriminate|].
+      intros k Hk. inversion Hk; subst. rewrite El. repeat split; auto. discriminate.
+    + destruct e; cbn [trans_fault] in *; try (exfalso; apply Hl; reflexivity).
+      destruct (lead sc) as [m|] eqn:El; [|exfalso; apply Hl; reflexivity].
+      rewrite Hd. cbn [option_map rank_of fst snd with_store s_script s_store]. split; [discriminate|].
+      intros k Hk. inversion Hk; subst. rewrite El. repeat split; auto. discriminate.
+Qed.
+
+Theorem load_live c s n meta len off b d k :
+  lead (s_script s) = Some k -> k <= b ->
+  sget n (s_store s) = Some d -> memN n (s_breaker s) = false ->
+  let o := snd (run_op c s (mkreq (OLoad n meta len off) b false)) in
+  o_res o = ROk /\ o_data o = slice d len off /\ o_succ o = match k with O => None | _ => Some k end.
+Proof.
+  intros Hl Hb Hd Hbr. cbv zeta.
+  assert (Hres : o_res (snd (run_op c s (mkreq (OLoad n meta len off) b false))) = ROk /\
+                 o_succ (snd (run_op c s (mkreq (OLoad n meta len off) b false))) = match k with O => None | _ => Some k end).
+  { unfold run_op. cbn [r_op r_budget r_cancelled]. rewrite Hbr. cbn [andb].
+    set (good := fun wl : WL => sget n (wstore (fst wl)) = Some d /\ lead (wl_script wl) <> None).
+    set (rank := fun wl : WL => rank_of (lead (wl_script wl))).
+    destruct (retry_live WL (att_load n len off) good rank
+                (fun wl Hg => proj1 (att_load_live n len off d wl (proj1 Hg) (proj2 Hg)))
+                (fun wl k0 Hg Hr => match proj2 (att_load_live n len off d wl (proj1 Hg) (proj2 Hg)) k0 Hr with
+                                    | conj A (conj B (conj C D)) => conj A (conj (conj B C) D) end)
+                k b (perm_attempts c) 0 (((s, []), []) : WL)) as [s' Hs'].
+    - split; [exact Hd|]. unfold wl_script. cbn [fst]. rewrite Hl. discriminate.
+    - unfold rank, wl_script. cbn [fst]. rewrite Hl. reflexivity.
+    - exact Hb.
+    - apply perm_attempts_pos.
+    - rewrite Hs'. destruct s' as [[s1 tr] data]. unfold fin. cbn [snd o_res o_succ succ_of Nat.add].
+      split; [reflexivity|]. destruct k; reflexivity. }
+  destruct Hres as [Hok Hsucc]. split; [exact Hok|]. split; [|exact Hsucc].
+  pose proof (load_checks c s n meta len off b false) as Hc. cbv zeta in Hc.
+  destruct (oracle_load_sound c (s_store s) n meta len off b false _ Hc) as [_ Hv].
+  destruct (Hv Hok) as (d' & Hd' & Hdata). rewrite Hd in Hd'. inversion Hd'; subst. exact Hdata.
+Qed.
+
+(* Save *)
+Definition w_script (w : W) : list fault := s_script (fst w).
+
+Lemma att_save_live c n d (w : W) :
+  lead_save (atomic c) (w_script w) <> None ->
+  (rank_of (lead_save (atomic c) (w_script w)) = 0 -> snd (att_save c n d w) = AOk) /\
+  (forall k, rank_of (lead_save (atomic c) (w_script w)) = Datatypes.S k ->
+     snd (att_save c n d w) = AErr ETrans /\
+     lead_save (atomic c) (w_script (fst (att_save c n d w))) <> None /\
+     rank_of (lead_save (atomic c) (w_script (fst (att_save c n d w)))) = k).
+Proof.
+  destruct w as [s tr]. unfold w_script, att_save, inner_save. cbn [fst]. intros Hl.
+  destruct (s_script s) as [|f sc] eqn:Es; cbn [pop].
+  - cbn [fst snd lead_save rank_of]. split; [reflexivity | intros k Hk; discriminate].
+  - destruct f as [|e|k0 e|e]; cbn [lead_save] in Hl |- *.
+    + cbn [fst snd rank_of]. split; [reflexivity | intros k Hk; discriminate].
+    + destruct e; cbn [trans_fault] in *; try (exfalso; apply Hl; reflexivity).
+      destruct (atomic c) eqn:At.
+      * destruct (lead_save true sc) as [m|] eqn:El; [|exfalso; apply Hl; reflexivity].
+        cbn [option_map rank_of fst snd with_store s_script]. split; [discriminate|].
+        intros k Hk. inversion Hk; subst. rewrite El. repeat split; auto. discriminate.
+      * unfold inner_remove. cbn [fst snd with_store s_script s_store s_breaker s_noexpiry].
+        destruct sc as [|r0 sc']; cbn [pop].
+        -- cbn [rank_of]. split; [discriminate|]. intros k Hk. inversion Hk; subst.
+           destruct (present n (s_store s)); cbn [fst snd with_store s_script lead_save rank_of];
+             repeat split; auto; discriminate.
+        -- destruct (lead_save false sc') as [m|] eqn:El; [|exfalso; apply Hl; reflexivity].
+           cbn [option_map rank_of]. split; [discriminate|]. intros k Hk. inversion Hk; subst.
+           destruct r0 as [|e1|k1 e1|e1]; [destruct (present n (s_store s))|..];
+             cbn [fst snd with_store s_script]; rewrite El; repeat split; auto; discriminate.
+    + destruct e; cbn [trans_fault] in *; try (exfalso; apply Hl; reflexivity).
+      destruct (atomic c) eqn:At.
+      * destruct (lead_save true sc) as [m|] eqn:El; [|exfalso; apply Hl; reflexivity].
+        cbn [option_map rank_of fst snd with_store s_script]. split; [discriminate|].
+        intros k Hk. inversion Hk; subst. rewrite El. repeat split; auto. discriminate.
+      * unfold inner_remove. cbn [fst snd with_store s_script s_store s_breaker s_noexpiry].
+        destruct sc as [|r0 sc']; cbn [pop].
+        -- cbn [rank_of]. split; [discriminate|]. intros k Hk. inversion Hk; subst.
+           destruct (present n (sput n (firstn k0 d) (s_store s))); cbn [fst snd with_store s_script lead_save rank_of];
+             repeat split; auto; discriminate.
+        -- destruct (lead_save false sc') as [m|] eqn:El; [|exfalso; apply Hl; reflexivity].
+           cbn [option_map rank_of]. split; [discriminate|]. intros k Hk. inversion Hk; subst.
+           destruct r0 as [|e1|k1 e1|e1]; [destruct (present n (sput n (firstn k0 d) (s_store s)))|..];
+             cbn [fst snd with_store s_script]; rewrite El; repeat split; auto; discriminate.
+    + destruct e; cbn [trans_fault] in *; try (exfalso; apply Hl; reflexivity).
+      destruct (atomic c) eqn:At.
+      * destruct (lead_save true sc) as [m|] eqn:El; [|exfalso; apply Hl; reflexivity].
+        cbn [option_map rank_of fst snd with_store s_script]. split; [discriminate|].
+        intros k Hk. inversion Hk; subst. rewrite El. repeat split; auto. discriminate.
+      * unfold inner_remove. cbn [fst snd with_store s_script s_store s_breaker s_noexpiry].
+        destruct sc as [|r0 sc']; cbn [pop].
+        -- cbn [rank_of]. split; [discriminate|]. intros k Hk. inversion Hk; subst.
+           destruct (present n (sput n d (s_store s))); cbn [fst snd with_store s_script lead_save rank_of];
+             repeat split; auto; discriminate.
+        -- destruct (lead_save false sc') as [m|] eqn:El; [|exfalso; apply Hl; reflexivity].
+           cbn [option_map rank_of]. split; [discriminate|]. intros k Hk. inversion Hk; subst.
+           destruct r0 as [|e1|k1 e1|e1]; [destruct (present n (sput n d (s_store s)))|..];
+             cbn [fst snd with_store s_script]; rewrite El; repeat split; auto; discriminate.
+Qed.
+
+Theorem save_live c s n d b k :
+  lead_save (atomic c) (s_script s) = Some k -> k <= b ->
+  let o := snd (run_op c s (mkreq (OSave n d) b false)) in
+  o_res o = ROk /\ sget n (o_store o) = Some d /\
+  (forall x, x <> n -> sget x (s_store s) = sget x (o_store o)) /\
+  o_succ o = match k with O => None | _ => Some k end.
+Proof.
+  intros Hl Hb. cbv zeta.
+  assert (Hres : o_res (snd (run_op c s (mkreq (OSave n d) b false))) = ROk /\
+                 o_succ (snd (run_op c s (mkreq (OSave n d) b false))) = match k with O => None | _ => Some k end).
+  { unfold run_op. cbn [r_op r_budget r_cancelled].
+    set (good := fun w : W => lead_save (atomic c) (w_script w) <> None).
+    set (rank := fun w : W => rank_of (lead_save (atomic c) (w_script w))).
+    destruct (retry_live W (att_save c n d) good rank
+                (fun w Hg => proj1 (att_save_live c n d w Hg))
+                (fun w k0 Hg Hr => proj2 (att_save_live c n d w Hg) k0 Hr)
+                k b (perm_attempts c) 0 ((s, []) : W)) as [s' Hs'].
+    - unfold good, w_script. cbn [fst]. rewrite Hl. discriminate.
+    - unfold rank, w_script. cbn [fst]. rewrite Hl. reflexivity.
+    - exact Hb.
+    - apply perm_attempts_pos.
+    - rewrite Hs'. destruct s' as [s1 tr]. unfold fin. cbn [snd o_res o_succ succ_of Nat.add].
+      split; [reflexivity|]. destruct k; reflexivity. }
+  destruct Hres as [Hok Hsucc]. split; [exact Hok|].
+  destruct (save_checks c s n d b false) as [Hc|(_ & _ & Hne & _)]; [|cbv zeta in Hne; contradiction].
+  cbv zeta in Hc. destruct (oracle_save_sound c (s_store s) n d b false _ Hc) as (F & V & _).
+  split; [apply V; exact Hok|]. split; [exact F | exact Hsucc].
+Qed.
+
+(* ---------- context cancelled during the back-off sleep ---------- *)
+
+Theorem run_op_c_oracle c s q cz :
+  check_op c (s_store s) q (snd (run_op_c c s (q, cz))) = check_op c (s_store s) q (snd (run_op c s q)) /\
+  o_store (snd (run_op_c c s (q, cz))) = o_store (snd (run_op c s q)) /\
+  (cz = false -> run_op_c c s (q, cz) = run_op c s q) /\
+  (o_res (snd (run_op_c c s (q, cz))) = ROk <-> o_res (snd (run_op c s q)) = ROk).
+Proof.
+  unfold run_op_c. destruct (run_op c s q) as [s' o]. cbn [snd].
+  destruct (andb cz (nonterminal_err c q o)) eqn:E.
+  - cbn [snd o_store]. split; [|split; [reflexivity|split]].
+    + unfold nonterminal_err in E. apply andb_true_iff in E as [_ E].
+      destruct (o_res o) eqn:R; try discriminate. unfold check_op. cbn [o_res o_calls o_store o_data o_size o_names].
+      rewrite R. reflexivity.
+    + intros ->. discriminate.
+    + cbn [o_res]. unfold nonterminal_err in E. apply andb_true_iff in E as [_ E].
+      destruct (o_res o); try discriminate. split; discriminate.
+  - repeat split; auto.
+Qed.
+
+(* a non-trivial instance: three transient faults (one after partial data), budget 3 *)
+Example c35_nonvacuous_live :
+  let s := mkst [(1%N, [7; 8; 9]%N)] [FBefore ETrans; FPartial 1 ETrans; FAfter ETrans] [] false in
+  lead (s_script s) = Some 3 /\
+  o_res (snd (run_op (mkcfg false false) s (mkreq (OLoad 1%N false 2 1) 3 false))) = ROk /\
+  o_res (snd (run_op (mkcfg false false) s (mkreq (OLoad 1%N false 2 1) 2 false))) = RErr ETrans /\
+  o_res (snd (run_op_c (mkcfg false false) s (mkreq (OLoad 1%N false 2 1) 1 false, true))) = RCtx /\
+  s_breaker (fst (run_op_c (mkcfg false false) s (mkreq (OLoad 1%N false 2 1) 1 false, true))) = [] /\
+  s_breaker (fst (run_op (mkcfg false false) s (mkreq (OLoad 1%N false 2 1) 1 false))) = [1%N].
+Proof. vm_compute. repeat split. Qed.
